@@ -11,6 +11,9 @@
 (*   PublishedKeys   schema accepted <=> KeysOK(KPublished, doc)                  *)
 (*   SameVerdict     when every rule entry has an action, loader and published    *)
 (*                   schema give the same verdict                 (SameLanguage)  *)
+(*   RouteStrict     the same document through the file-based entry points the   *)
+(*                   pipeline really uses (PassesFrom, a pipeline naming the file) *)
+(*                   gets the verdict Strict demands as well                       *)
 (*   GeneratorAgrees the verdicts predicted from the abstract walk equal the ones *)
 (*                   computed from the full rendered tree (harness consistency;   *)
 (*                   a failure is reported as inconclusive, never as a violation) *)
@@ -26,7 +29,7 @@ TKLoader     == DataKLoader
 
 VARIABLE l
 (* the generator's variables are not used here *)
-Idle  == file = "" /\ steps = <<>> /\ leaf = NoLeaf /\ inj = {} /\ style = "fresh" /\ pos = 0
+Idle  == file = "" /\ steps = <<>> /\ leaf = NoLeaf /\ inj = {} /\ style = "fresh" /\ pos = 0 /\ form = "map"
 TInit == l = 1 /\ Idle
 TNext == l <= Len(Trace) /\ l' = l + 1 /\ UNCHANGED vars
 TSpec == TInit /\ [][TNext]_<<l, vars>>
@@ -37,6 +40,9 @@ DocOf(r) == [file |-> r.file,
                                                    keys |-> {r.nodes[i].keys[j] : j \in DOMAIN r.nodes[i].keys}]]]
 LoaderJudged(r)    == r.lclass \in {"ok", "key", "empty"}
 PublishedJudged(r) == r.pclass \in {"ok", "key"}
+(* "structure": the schema rejected because of a keyword about WHICH KEYS are present together (minProperties,   *)
+(* maxProperties, required, oneOf, ...): a loaded file that does not validate for such a reason is a disagreement *)
+PublishedJudgedWide(r) == r.pclass \in {"ok", "key", "structure"}
 
 (* the verdicts of the specification for one document, computed once *)
 Judge(r) == LET d == DocOf(r) IN
@@ -44,13 +50,17 @@ Judge(r) == LET d == DocOf(r) IN
 
 LoaderStrictR(r, j)    == LoaderJudged(r) => ((r.loader = "accept") <=> (j.kl /\ j.rl))           \* Strict(KLoader, doc, accepted)
 PublishedKeysR(r, j)   == PublishedJudged(r) => ((r.published = "accept") <=> j.kp)               \* PublishedKeys(KPublished, doc, accepted)
-SameVerdictR(r, j)     == (LoaderJudged(r) /\ PublishedJudged(r) /\ j.rl /\ j.rp) => r.loader = r.published
+SameVerdictR(r, j)     == (LoaderJudged(r) /\ PublishedJudgedWide(r) /\ j.rl /\ j.rp) => r.loader = r.published
+(* every other route by which cog itself reaches the same loader (file names instead of a reader, a whole pipeline *)
+(* naming the file) is judged exactly like the primary one                                                         *)
+RoutesStrictR(r, j)    == \A i \in DOMAIN r.routes : r.routes[i].judged => ((r.routes[i].v = "accept") <=> (j.kl /\ j.rl))
 GeneratorAgreesR(r, j) == r.expl = "none" \/ ((r.expl = "yes") = (j.kl /\ j.rl) /\ (r.expp = "yes") = j.kp)
 
 ViolatedJ(r, j) == (IF LoaderStrictR(r, j) THEN {} ELSE {"LoaderStrict"})
               \cup (IF PublishedKeysR(r, j) THEN {} ELSE {"PublishedKeys"})
               \cup (IF SameVerdictR(r, j) THEN {} ELSE {"SameVerdict"})
               \cup (IF GeneratorAgreesR(r, j) THEN {} ELSE {"GeneratorAgrees"})
+              \cup (IF RoutesStrictR(r, j) THEN {} ELSE {"RouteStrict"})
 Violated(r) == ViolatedJ(r, Judge(r))
 Facts(r) == LET j == Judge(r) IN
             [l |-> l - 1, violated |-> ViolatedJ(r, j), keysok_loader |-> j.kl, rulesok |-> j.rl, keysok_published |-> j.kp]
